@@ -675,6 +675,12 @@ def ml6(model):
     gl = model.func('packages.babel.get_language_token')
     rev = any(isinstance(n, ast.For) and isinstance(n.iter, ast.Call)
               and getattr(n.iter.func, 'id', '') == 'reversed' for n in ast.walk(gl.node))
+    # the same as a search expression: next(<opt for opt in reversed(options) if ..>, default)
+    rev = rev or any(isinstance(n, ast.Call) and getattr(n.func, 'id', '') == 'next' and n.args
+                     and isinstance(n.args[0], ast.GeneratorExp)
+                     and isinstance(n.args[0].generators[0].iter, ast.Call)
+                     and getattr(n.args[0].generators[0].iter.func, 'id', '') == 'reversed'
+                     for n in ast.walk(gl.node))
     if rev:
         r.ok(gl.node, 'get_language_token scans the options from the end', nontrivial=True)
     else:
